@@ -71,8 +71,10 @@ type Channel struct {
 	// queues store unconsumed Packets
 	queueRx, queueTx *PacketQueue
 	// lastPkgRx/Tx are the last packages sent to/received from the TDS
-	// server
+	// server. lastPkgTx belongs to the transmit side (txLock),
+	// lastPkgRx is guarded by lastPkgRxLock.
 	lastPkgRx, lastPkgTx Package
+	lastPkgRxLock        sync.Mutex
 	// rxDoneFinal is true if the last package passed to the consumer
 	// in the current message was a DonePackage with TDS_DONE_FINAL.
 	// lastPkgRx cannot be used for this as it outlives the message.
@@ -359,19 +361,26 @@ func (tdsChan *Channel) handleSpecialPackage(pkg Package) (bool, error) {
 	return true, nil
 }
 
+// SetLastPkgRx sets the package the next received package is told to
+// be preceded by.
+//
+// It does not take the channel's write lock: the reader goroutine holds
+// the read lock while it waits for room in the package queue, a caller
+// waiting for the write lock would block the reader, every other user
+// of the channel and Close behind it.
 func (tdsChan *Channel) SetLastPkgRx(pkg Package) {
-	// Write lock needs to be used to prevent data races being detected
-	// despite data races not being possible.
-	tdsChan.Lock()
-	defer tdsChan.Unlock()
+	tdsChan.lastPkgRxLock.Lock()
+	defer tdsChan.lastPkgRxLock.Unlock()
 	tdsChan.lastPkgRx = pkg
 }
 
+// SetLastPkgTx sets the package the next queued package is told to be
+// preceded by. It belongs to the transmit side of the channel.
 func (tdsChan *Channel) SetLastPkgTx(pkg Package) {
-	// Write lock needs to be used to prevent data races being detected
-	// despite data races not being possible.
-	tdsChan.Lock()
-	defer tdsChan.Unlock()
+	tdsChan.RLock()
+	defer tdsChan.RUnlock()
+	tdsChan.txLock.Lock()
+	defer tdsChan.txLock.Unlock()
 	tdsChan.lastPkgTx = pkg
 }
 
@@ -833,7 +842,10 @@ func (tdsChan *Channel) tryParsePackage() bool {
 	}
 
 	if acceptor, ok := pkg.(LastPkgAcceptor); ok {
-		if err := acceptor.LastPkg(tdsChan.lastPkgRx); err != nil {
+		tdsChan.lastPkgRxLock.Lock()
+		lastPkgRx := tdsChan.lastPkgRx
+		tdsChan.lastPkgRxLock.Unlock()
+		if err := acceptor.LastPkg(lastPkgRx); err != nil {
 			tdsChan.queueError(fmt.Errorf("error in LastPkg: %w", err))
 			return false
 		}
@@ -874,7 +886,9 @@ func (tdsChan *Channel) tryParsePackage() bool {
 	// Messages of the server may arrive in the middle of a result set,
 	// they must not hide the format from the data packages that follow.
 	if !IsError(pkg) {
+		tdsChan.lastPkgRxLock.Lock()
 		tdsChan.lastPkgRx = pkg
+		tdsChan.lastPkgRxLock.Unlock()
 	}
 	tdsChan.rxDoneFinal, _ = isDoneFinal(pkg)
 	return true
